@@ -429,6 +429,35 @@ theorem C14_macro_single_id (ops : List Op) (hops : ∀ op ∈ ops, op.Valid) (k
   exact ⟨w, h1, World.macroSend_single w _ m h2 hm (h2.single_bit k),
     World.discardById_single w _ m h2 (h2.single_bit k)⟩
 
+/-- **LOG_LEVEL used with a log NAME** (`LOG_LEVEL( "name", level) << …`; the name of a log that exists or not),
+    after every history, every enumerated (level, class): the macro returns normally and the state afterwards is
+    exactly that of the plain `Logging::log( name, msg)`, i.e. `deliverName` - the first log of that name gets the
+    message, nothing happens when there is none: the pre-check by name never costs a message and never throws.
+    (The empty string is not a log name for the macro: `StreamLog( "", …)` throws "no destination log name
+    specified" - second part: then nothing is delivered, and the exception is raised only when a log with the
+    empty name exists and lets the level pass; otherwise the call returns normally.) -/
+theorem C14_macro_single_name (ops : List Op) (hops : ∀ op ∈ ops, op.Valid) (name : String) (m : Msg)
+    (hm : m.Valid) :
+    ∃ w, World.init.run ops = .ok w ∧
+      (name ≠ "" → w.macroSendName name m = .ok (w.deliverName name m, none)) ∧
+      (name = "" → w.macroSendName name m = .ok (w, none) ∨ w.macroSendName name m = .ok (w, some .runtime_error)) := by
+  obtain ⟨w, h1, h2, _⟩ := World.run_inv ops World.init World.init_inv hops
+  refine ⟨w, h1, ?_, ?_⟩
+  · intro hne
+    obtain ⟨b, hb, hs⟩ := World.discardByName_spec w name m h2
+    unfold World.macroSendName
+    rw [hb]
+    cases b with
+    | true => simp only; rw [hs rfl]
+    | false => simp only; rw [if_neg hne, World.logName_eq w name m h2 hm]
+  · intro he
+    obtain ⟨b, hb, _⟩ := World.discardByName_spec w name m h2
+    unfold World.macroSendName
+    rw [hb]
+    cases b with
+    | true => exact Or.inl rfl
+    | false => simp only; rw [if_pos he]; exact Or.inr rfl
+
 /-- **Exactly when LOG_LEVEL / `discard_by_level( ids, …)` throw**, any id set, after every
     history: if `ids` overlaps no log's id without being equal to it, the macro returns normally
     with the state of the plain send; if `ids` contains the id of some log *and another bit*
@@ -462,6 +491,17 @@ theorem C14_macro_two_ids_throws :
     ((exampleWorld.deliver 3 ⟨3, 6⟩).logs.map fun e => e.log.dests.map fun d => d.received.length) =
       [[1, 0], [1]] :=
   ⟨exampleWorld_inv, rfl, rfl⟩
+
+/-- `C14_macro_single_name` on the two-log state: `LOG_LEVEL( "a", warning)` reaches destination `x` of log `a`
+    as the plain send by name does; `LOG_LEVEL( "a", debug)` is stopped by the pre-check (level filter of the log)
+    and the plain send delivers nothing either; an unknown name does nothing -/
+example :
+    exampleWorld.macroSendName "a" ⟨3, 6⟩ = .ok (exampleWorld.deliverName "a" ⟨3, 6⟩, none) ∧
+    ((exampleWorld.deliverName "a" ⟨3, 6⟩).logs.map fun e => e.log.dests.map fun d => d.received.length) = [[1, 0], [0]] ∧
+    exampleWorld.macroSendName "a" ⟨5, 6⟩ = .ok (exampleWorld, none) ∧
+    exampleWorld.deliverName "a" ⟨5, 6⟩ = exampleWorld ∧
+    exampleWorld.macroSendName "nolog" ⟨3, 6⟩ = .ok (exampleWorld, none) :=
+  ⟨rfl, rfl, rfl, rfl, rfl⟩
 
 /-! ### non-vacuity: concrete instances of the hypotheses and of both outcomes -/
 
